@@ -134,6 +134,7 @@ def fUniqueDirs : Node → Nat
   | .spread _ dirs => dupCount [] (dirs.map (·.name))
   | .inline _ dirs => dupCount [] (dirs.map (·.name))
   | .fragmentDef _ _ dirs => dupCount [] (dirs.map (·.name))
+  | .varDef v => dupCount [] (v.dirs.map (·.name))
   | _ => 0
 
 private theorem uniqueDirs_enter (s : SchemaD) (fx : Fixes) (n : Node) (ti : TI) (rs : RS) :
